@@ -1,7 +1,9 @@
 /-
 Model of the acknowledged-send layer of cascade (src/cascade/executor/comms.py):
-`ReliableSender` (send / ack / maybe_retry), `Listener` (`_recv_one`: always ack a Syn, deliver
-only an unseen Syn), the dispatch of `Ack` messages by the endpoint loops
+`ReliableSender` (send / ack / maybe_retry) with BOTH wire shapes of an acknowledged message
+(`[Syn, pickled message]` and, for a DatasetTransmitPayload sent by `send_data`,
+`[Syn, pickled header, raw value]`; ids ≥ `dataBase` are payloads), `Listener` (`_recv_one`: always
+ack a Syn, deliver only an unseen Syn — whatever the shape), the dispatch of `Ack` messages by the endpoint loops
 (`Bridge.recv_events`, `Bridge.shutdown`, `Executor.recv_loop`), a per-endpoint clock, and an
 adversarial network that may drop, duplicate, delay and reorder whole multipart messages
 (data frames and acknowledgements alike).
@@ -124,10 +126,28 @@ deriving DecidableEq, Repr
 
 def setEp (s : Sys) (a : Nat) (e : Endpoint) : Sys := { s with ep := upd s.ep a e }
 
-def dataFrames (i a m : Nat) : List Frame := [.syn i a, .msg (.app m)]
+/-- Message ids are interned naturals; the ids from `dataBase` on stand for
+DatasetTransmitPayloads, which travel in the second wire format (`comms.send_data`): Syn, pickled
+header, raw value — three frames — instead of Syn + ONE pickled frame (`ReliableSender.send`). -/
+def dataBase : Nat := 1000000
+
+/-- the wire shape of message `m` -/
+def shapeOf (m : Nat) : Shape := if dataBase ≤ m then .data else .plain
+
+/-- the frames after the Syn: `[pickled m]`, or `[header, value]` for a payload -/
+def bodyFrames (m : Nat) : List Frame := wireBody (shapeOf m) m
+
+/-- what the destination's `_recv_one` returns for message `m`: `Parsed.msg (.app m)`, or
+`Parsed.payload m (.msg (.app m))` for a payload -/
+def bodyOf (m : Nat) : Parsed := parsedBody (shapeOf m) m
+
+/-- An acknowledged message on the wire, in either shape: `[Syn(i, a), pickled m]` (two frames,
+`ReliableSender.send`) or `[Syn(i, a), header, value]` (three frames, `send_data`). -/
+def dataFrames (i a m : Nat) : List Frame := .syn i a :: bodyFrames m
 def ackFrames (i : Nat) : List Frame := [.msg (.ack i)]
 
-/-- `ReliableSender.send`. With an unknown host the record is already stored when
+/-- `ReliableSender.send` (and `send_data` for a payload id: same bookkeeping, three-frame wire
+shape — `dataFrames`). With an unknown host the record is already stored when
 `self.hosts[host]` raises KeyError (idx is not incremented, nothing is transmitted). -/
 def send (s : Sys) (a h m : Nat) : Sys :=
   let e := s.ep a
@@ -216,7 +236,8 @@ def commit (s : Sys) (a : Nat) : Sys :=
 
 def abort (s : Sys) (a : Nat) : Sys := setEp s a (abortEp (s.ep a))
 
-/-- Body of the `for idx, record in self.inflight.items()` loop of `maybe_retry` for one idx.
+/-- Body of the `for idx, record in self.inflight.items()` loop of `maybe_retry` for one idx
+(the retransmission has the shape of the original: `dataFrames`).
 The Bool says: this iteration raised. -/
 def retryOne (s : Sys) (a i : Nat) : Sys × Bool :=
   let e := s.ep a
